@@ -575,6 +575,74 @@ def eunit_case(ctx, g, rng, index):
                 "depend on the unit the eccentricity prior is declared in", tags=tags)
 
 
+def f32const_case(ctx, g, rng, index):
+    """parameters FIXED through pytensor constants, as docs/examples/Strader-circular-only does (`pm.Deterministic("omega",
+    pt.constant(...))`): `pt.constant(0.5)` is float32 and `pt.constant(1)` int8.  The sampler works in double precision
+    throughout; the pymc model must predict the same velocities - metamorphic: the same constants declared as float64."""
+    import astropy.units as u
+    import pymc as pm
+    import pytensor.tensor as pt
+    import thejoker as tj
+    import thejoker.units as xu
+    from astropy.time import Time
+    REL = "setup_mcmc model with parameters fixed by float32 / integer pytensor constants = the same model with float64 constants"
+    n = int(rng.integers(5, 10))
+    t = 58000.0 + np.sort(rng.uniform(0, 200, n))
+    data = tj.RVData(Time(t, format="mjd", scale="tcb"), rng.normal(0, 5, n) * u.km / u.s, rng.uniform(0.1, 1.0, n) * u.km / u.s)
+    e0 = float(np.float32(rng.choice([0.5, 0.25, 0.3, 0.1])))       # a value a float32 constant holds exactly or not: both occur
+    om0 = int(rng.choice([1, 2, 3]))
+    phys = [dict(P=float(rng.uniform(3, 200)), M0=float(rng.uniform(-3, 3)), K=float(rng.choice([1, -1]) * rng.uniform(50, 200)),
+                 v0=float(rng.normal(0, 10))) for _ in range(3)]
+    res = {}
+    inp = dict(e=e0, omega=om0, n_epochs=n, points=phys)
+    ctx.evaluated(REL, (index,))
+    ctx.count("f32const")
+    for tag in ("narrow", "double"):
+        try:
+            with fast():
+                with pm.Model() as model:
+                    ce = pt.constant(e0) if tag == "narrow" else pt.constant(np.float64(e0))
+                    co = pt.constant(om0) if tag == "narrow" else pt.constant(np.float64(om0))
+                    pars = {"e": xu.with_unit(pm.Deterministic("e", ce), u.one), "omega": xu.with_unit(pm.Deterministic("omega", co), u.rad)}
+                    prior = tj.JokerPrior.default(P_min=2 * u.day, P_max=256 * u.day, sigma_K0=30 * u.km / u.s, sigma_v=100 * u.km / u.s, pars=pars)
+                joker = tj.TheJoker(prior, rng=np.random.default_rng(1))
+                smp = tj.JokerSamples(t_ref=data.t_ref)
+                smp["P"] = [17.3] * u.day
+                smp["e"] = [e0] * u.one
+                smp["omega"] = [float(om0)] * u.rad
+                smp["M0"] = [2.2] * u.rad
+                smp["s"] = [0.0] * u.km / u.s
+                smp["K"] = [80.0] * u.km / u.s
+                smp["v0"] = [3.0] * u.km / u.s
+                with model:
+                    joker.setup_mcmc(data, smp)
+                f = model.compile_fn(model.replace_rvs_by_values([model["model_rv"], model["ln_likelihood"]]),
+                                     inputs=model.value_vars, on_unused_input="ignore")
+                outs = []
+                for th in phys:
+                    o = f(value_point(model, dict(th, e=e0, omega=float(om0), s=0.0)))
+                    outs.append((np.asarray(o[0], dtype=float).ravel(), float(o[1]), str(np.asarray(o[0]).dtype)))
+            res[tag] = dict(outs=outs)
+        except Exception as e_:  # noqa: BLE001
+            res[tag] = dict(error=f"{type(e_).__name__}: {str(e_)[:200]}")
+    a, b = res["double"], res["narrow"]
+    tags = dict(call="setup_mcmc", where="narrow-constants", custom_units=False)
+    if "error" in a:
+        raise core_mod.Infra("reference model (float64 constants) failed: " + a["error"])
+    if "error" in b:
+        violate(ctx, REL, g, inp, dict(narrow=b), None, "a prior with parameters fixed by pytensor constants (the documented circular-orbit pattern) "
+                "must be usable in setup_mcmc", tags=tags)
+        return
+    bad = []
+    for k, (oa, ob) in enumerate(zip(a["outs"], b["outs"])):
+        gap = float(np.max(np.abs(oa[0] - ob[0]))) if oa[0].shape == ob[0].shape else float("inf")
+        if not gap <= 1e-9 * (1 + abs(phys[k]["K"])):
+            bad.append(f"model_rv at point {k}: max gap {gap:.3g} km/s for K = {phys[k]['K']:.1f} km/s (dtype {ob[2]})")
+    if bad:
+        violate(ctx, REL, g, inp, dict(differences=bad), None, "the sampler computes in double precision; the pymc model must predict the "
+                "same radial velocities, not a single-precision version of them: " + "; ".join(bad), tags=tags)
+
+
 def median_case(ctx, g, rng):
     """JokerSamples.median_period against Mcmc.medianIdx on many small libraries (ties included)"""
     import astropy.units as u
@@ -616,6 +684,7 @@ def plan(ctx):
     cases = [("cfg", i) for i in range(250 if ctx.thorough else 20)]
     cases += [("median", i) for i in range(3000 if ctx.thorough else 200)]
     cases += [("eunit", i) for i in range(12 if ctx.thorough else 2)]
+    cases += [("f32const", i) for i in range(12 if ctx.thorough else 2)]
     return cases
 
 
@@ -632,6 +701,8 @@ def run_case(ctx, g):
         median_case(ctx, g, rng)
     elif kind == "eunit":
         eunit_case(ctx, g, rng, index)
+    elif kind == "f32const":
+        f32const_case(ctx, g, rng, index)
 
 
 def post(ctx):
@@ -643,6 +714,7 @@ def post(ctx):
     ctx.require("start points with parameters behind auxiliary angle variables", c["start:parameters behind auxiliary angle variables"], 10)
     ctx.require("samples carrying another reference epoch than the data", c["tref-history:other epoch"], 3)
     ctx.require("samples stating the data's own reference epoch", c["tref-history:same epoch stated explicitly"], 3)
+    ctx.require("parameters fixed by float32 / integer pytensor constants", c["f32const"], 2)
     ctx.require("eccentricity prior declared in per cent", c["eunit:FixedCompanionMass"] + c["eunit:Normal"], 2)
     ctx.require("single RVData whose rv_err is in another unit than rv", c["cfg:rv_err in another unit than rv, single RVData"], 2)
     ctx.require("several sources with rv_err in another unit than rv", c["cfg:rv_err in another unit than rv, several sources"], 1)
